@@ -33,7 +33,8 @@ MANY = b"&k=v" * 1500                  # a body / query with thousands of fields
 DICTIONARY = [b"\x00", b"\xff", b"%", b"%00", b"..", b"[", b"]", b";", b'"', b"=", DIGITS, b"charset=x",
               b"charset=utf-16", b"boundary=", b"W/", b"bytes=", b"-", b",", b"://", b"[::1", b"\r", NEST,
               # a few more in the same spirit
-              b"%ff", b"/", b":", b";charset=undefined", b"\r\n", b" ", b"x", MANY, b"charset=idna", b";charset=punycode", b"charset=utf-7", b"%E9%A1%B5", b"-0000"]
+              b"%ff", b"/", b":", b";charset=undefined", b"\r\n", b" ", b"x", MANY, b"charset=idna", b";charset=punycode", b"charset=utf-7", b"%E9%A1%B5", b"-0000",
+              b"; boundary*=utf-8\'\'%E2%82%AC", b"*=utf-8\'\'%E2%82%AC", b";q=inf", b";q=1e999"]
 _D = {name: DICTIONARY.index(v) for name, v in
       [("nul", b"\x00"), ("ff", b"\xff"), ("pct", b"%"), ("pct00", b"%00"), ("dots", b".."), ("lb", b"["), ("rb", b"]"),
        ("semi", b";"), ("quote", b'"'), ("eq", b"="), ("digits", DIGITS), ("csx", b"charset=x"), ("cs16", b"charset=utf-16"),
